@@ -129,6 +129,13 @@ func sizeSource(kind string, n int) (src []byte, name string) {
 	switch kind {
 	case "strconst":
 		return []byte("print \"" + a + "\" + 1\nprint 2 + nil\n"), name
+	case "strconst2":
+		// two string constants: the second a little longer than the first (scratch buffers grown for one are reused for the next)
+		var sb strings.Builder
+		for _, k := range []int{7, 8, 9, 10, 11} {
+			sb.WriteString("print \"" + a + "\" == \"" + a + strings.Repeat("b", k) + "\"\n")
+		}
+		return []byte(sb.String()), name
 	case "ident":
 		id := "v" + a
 		return []byte("def " + id + " {\n " + id + " = 1\n print " + id + "\n}\nprint 1/0\n"), name
